@@ -285,7 +285,7 @@ def worker(job):
                     hists = hists[::2]
             else:
                 hists = []
-            hists += [random_walk(rng, nst, rng.choice([20, 60, 200, 600])) for _ in range(40 if tier == 'quick' else 300)]
+            hists += [random_walk(rng, nst, rng.choice([20, 60, 200, 600])) for _ in range(40 if tier == 'quick' else 1000)]
             run_script(bindir, c, hists, part, wd, 'f%d' % idx)
         else:
             n = 6 if tier == 'quick' else 24
@@ -413,7 +413,7 @@ def main():
     jobs = [(bindir, 'fixed', i, a.tier) for i in range(nfixed)] + [(bindir, 'gen', i, a.tier) for i in range(16 if a.tier == 'quick' else 64)]
     for r in parallel(worker, jobs):
         rep.merge(r)
-    for r in parallel(repl_worker, [(bindir, i, 8 if a.tier == 'quick' else 120) for i in range(16)]):
+    for r in parallel(repl_worker, [(bindir, i, 8 if a.tier == 'quick' else 400) for i in range(16)]):
         rep.merge(r)
     rew = rep.tables.get('rewinds', {})
     return rep.finish(
